@@ -28,19 +28,19 @@ LEVEL_TEXT = {}
 
 def spec_hash():
     h = hashlib.sha256()
-    for d in ("/verif/spec", "/verif/spec/mc"):
+    for d in (common.VERIF + "/spec", common.VERIF + "/spec/mc"):
         for fn in sorted(os.listdir(d)):
             if fn.endswith(".tla") or fn == "configs.json":
                 with open(os.path.join(d, fn), "rb") as f:
                     h.update(fn.encode())
                     h.update(f.read())
-    with open("/verif/lib/cfdpmodel.py", "rb") as f:
+    with open(common.VERIF + "/lib/cfdpmodel.py", "rb") as f:
         h.update(f.read())
     return h.hexdigest()[:16]
 
 
 def load_configs():
-    with open("/verif/spec/mc/configs.json") as f:
+    with open(common.VERIF + "/spec/mc/configs.json") as f:
         return json.load(f)["configs"]
 
 
@@ -111,6 +111,8 @@ def collect(prop, tier, seed, c, only=None):
     escalated = []
     while queue:
         conf, ctier = queue.pop(0)
+        if ctier != tier and viols:
+            continue            # the escalation looks for a violation; one has been found already
         m = model(conf, ctier, os.path.join(c.work, "model"), workers)
         states += m["states"]
         trans += m["transitions"]
@@ -293,7 +295,7 @@ def fmt_step(s):
 TAGS = [
     "C01:DeliveredIsSource", "C02:RecoversOK", "C03:IdleBound", "C03:NoSpin",
     "C04:FileChanged", "C04:RequestsRedone", "C04:IntegrityFaultAfterDelivery", "C04:SenderSuccessWithoutDelivery",
-    "C07:Header", "C07:DataContent", "C07:UnsolicitedData", "C07:MetadataWrong", "C07:EofWrong", "C07:EofBeforeData",
+    "C07:Header", "C07:DataContent", "C07:UnsolicitedData", "C07:MetadataWrong", "C07:EofWrong", "C07:EofBeforeData", "C07:NakNotAnswered",
     "C08:NakWellFormed", "C08:DeferredQuiet", "C08:NakCoversMissing", "C08:NakAsksForHeld",
     "C10:NoPartialFile", "C10:CancelEnds", "C10:CancelReported",
     "C13:RequestsOutsideDelivery", "C13:ResponsesDiffer",
